@@ -145,6 +145,27 @@ def case(c):
         if r:
             out.append(("C17/" + r[0], r[1]))
             break
+    # the same instance with its numbers written another way: integral floats as Python ints (what a script that says
+    # `G(1) | 0` loads as), Python numbers as NumPy scalars (what computed arguments load as), ints as floats
+    import numpy as np
+    retype = (("ints-where-integral", lambda x: int(x) if isinstance(x, float) and x.is_integer() and abs(x) < 2 ** 53 else x),
+              ("numpy-scalars", lambda x: np.float64(x) if isinstance(x, float) else (np.int64(x) if isinstance(x, int) and not isinstance(x, bool) and abs(x) < 2 ** 62 else x)),
+              ("floats", lambda x: float(x) if isinstance(x, (int, np.integer)) and not isinstance(x, bool) and abs(int(x)) < 2 ** 53 else x))
+    for tag, conv in retype:
+        q = copy.deepcopy(inst)
+        changed = False
+        for o in q.operations:
+            if o.get("args"):
+                new = [conv(x) for x in o["args"]]
+                changed = changed or any(type(a) is not type(b) for a, b in zip(new, o["args"]))
+                o["args"] = new
+        if not changed or out:
+            continue
+        nmatch += 1
+        r = check_match(t, q, names, None, "instance with %s of %s with %r" % (tag, src.split(chr(10) * 2, 1)[1].replace("\n", " / "), v))
+        if r:
+            out.append(("C17/" + r[0] + ":" + tag, r[1]))
+            break
     if do_edits:
         def edited(f):
             q = copy.deepcopy(inst)
